@@ -4,6 +4,7 @@ package main
 
 import (
 	"fmt"
+	"go/token"
 	"go/types"
 	"sort"
 	"strings"
@@ -257,7 +258,16 @@ func (fr *Frame) pureExternal(st *State, name string, callee *ssa.Function, sig 
 		res[i] = ex.f.App(fmt.Sprintf("ext.%s.r%d", sanitize(name), i), ex.tm.SortOf(rt), args...)
 		ex.typedFacts(st, res[i], rt)
 	}
+	if nonNegExternal[name] && len(res) > 0 {
+		ex.assume(st, ex.f.Ge(res[0], ex.f.Int(0)))
+	}
 	return res
+}
+
+// nonNegExternal: dependency getters whose result is assumed non-negative (listed as assumptions in the evidence):
+// a block height handed to the application by consensus is never negative.
+var nonNegExternal = map[string]bool{
+	"(github.com/cosmos/cosmos-sdk/types.Context).BlockHeight": true,
 }
 
 // sigParamTypes: receiver (if any) followed by the parameter types (available without a function body).
@@ -392,7 +402,10 @@ func (fr *Frame) applyContract(st *State, ct *Contract, callee *ssa.Function, c 
 		if label == "" {
 			label = fmt.Sprintf("%d", k)
 		}
-		if fr.verifyingRoot() {
+		// a precondition tagged with properties is assumed everywhere, but only those properties' checks
+		// answer for it at the call site (the caller must then be listed under those properties too);
+		// an untagged one is checked wherever its caller is verified
+		if fr.verifyingRoot() && cl.HasTag(ex.prop) {
 			ex.addOblig(&Obligation{Name: fmt.Sprintf("%s/requires@%s:%s", fr.rootKey(), fr.callOrdName(in), label), Kind: "requires", Fn: fr.rootKey(), Goal: goal, PC: st.pc,
 				Pos: ex.W.prog.Fset.Position(in.Pos()).String(), Clause: cl})
 		}
@@ -1006,6 +1019,22 @@ func (fr *Frame) loopHeader(st *State, li *loopInfo, phis []*ssa.Phi, entryVals 
 		// range-over-slice index: Go semantics guarantee -1 <= i < len
 		if p.Comment == "rangeindex" {
 			ex.assume(st, f.Ge(v, f.Int(-1)))
+			// ... and below the length it is compared with in the loop head (t = phi+1; t < len)
+			for _, in := range li.header.Instrs {
+				cmp, ok := in.(*ssa.BinOp)
+				if !ok || cmp.Op != token.LSS {
+					continue
+				}
+				inc, ok := cmp.X.(*ssa.BinOp)
+				if !ok || inc.Op != token.ADD || inc.X != ssa.Value(p) {
+					continue
+				}
+				if lenv, ok := fr.env[cmp.Y]; ok {
+					ex.assume(st, f.Lt(v, lenv))
+				} else if c, ok := cmp.Y.(*ssa.Const); ok {
+					ex.assume(st, f.Lt(v, ex.constTerm(c)))
+				}
+			}
 		}
 	}
 	// 2b. 'loop <n> opaque x, y': forget what the named (loop-invariant) values were computed from; from here
